@@ -498,7 +498,7 @@ PROPS['C18'] = {
 PROPS['C19'] = {
     'module': 'SuironVerif.Props.C19',
     'theorems': ['Suiron.C19.show_and_groups_or', 'Suiron.C19.show_and_groups_and', 'Suiron.C19.show_or_keeps_and', 'Suiron.C19.show_or_groups_or',
-                 'Suiron.C19.show_fact', 'Suiron.C19.show_rule', 'Suiron.C19.show_unify'],
+                 'Suiron.C19.show_fact', 'Suiron.C19.show_rule', 'Suiron.C19.show_unify', 'Suiron.C19.integers_round_trip'],
     'oracles': ['C19'],
     'suites': {
         'quick': parse_runs('C19', [('grammar', 6000, None), ('grammar', 6000, None), ('spellings', 2500, None), ('mutate', 4000, None)]),
